@@ -98,10 +98,15 @@ package planner
 //@ props C12 C13 C11 C08 C10 C03 C20
 //@ func (p *queryPlan) processClause
 //@   opt modifies-everything
-//@   opt obligations assert post:driver post:plan invariant
+//@   opt obligations assert post:driver post:plan post:optional invariant
 //@   requires p != nil && p.stm != nil && p.tbl != nil && cls != nil && lo != nil
 //@   ensures[driver-error-surfaces@C20] $driverFailed && !old($driverFailed) ==> result1 != nil
 //@   ensures[plan-untouched] p.stm == old(p.stm) && p.tbl == old(p.tbl) && p.clauses == old(p.clauses)
+//@   ensures[optional-never-loses-rows@C10] cls.Optional && result1 == nil ==> leftRowsKept(p.tbl.Data, old(p.tbl.Data))
+//@   atcall simpleFetch assert[table-is-allocated] allocated(p.tbl)
+//@   atcall AppendTable assert[table-as-at-entry] p.tbl.Data == old(p.tbl.Data) && t == p.tbl
+//@   atcall LeftOptionalJoin assert[table-as-at-entry] p.tbl.Data == old(p.tbl.Data) && t == p.tbl
+//@   loop 0 invariant[table-untouched-so-far] p.tbl.Data == old(p.tbl.Data) && cls.Optional == old(cls.Optional)
 //@   loop 0 invariant[no-driver-call-yet] $driverFailed == old($driverFailed) && p.tbl != nil && p.stm != nil && p.stm == old(p.stm) && p.tbl == old(p.tbl) && p.clauses == old(p.clauses)
 //@   atcall simpleFetch assert[limit-push-down@C12] stmLimit != 0 ==> len(p.stm.pattern) == 1 && len(p.stm.groupBy) == 0 && len(p.stm.havingExpression) == 0 && len(p.stm.orderBy) == 0
 
@@ -116,7 +121,9 @@ package planner
 //@   ensures[own-table] result0 != nil ==> result0.#lock_mu == 0
 //@   ensures[driver-error-surfaces@C20] $driverFailed && !old($driverFailed) ==> result1 != nil
 //@   ensures[existing-rows-untouched] forall m table.Row, k string :: {has(m, k)} {old(has(m, k))} old(allocated(m)) ==> has(m, k) == old(has(m, k)) && m[k] == old(m[k])
-//@   ensures[plans-untouched] forall q *queryPlan :: {q.stm} {q.tbl} {q.clauses} q.stm == old(q.stm) && q.tbl == old(q.tbl) && q.clauses == old(q.clauses)
+//@   ensures[optional-flag-untouched] forall c *semantic.GraphClause :: {c.Optional} old(allocated(c)) ==> c.Optional == old(c.Optional)
+//@   ensures[tables-untouched] forall x *table.Table :: {x.Data} old(allocated(x)) ==> x.Data == old(x.Data)
+//@   ensures[plans-untouched] forall q *queryPlan :: {q.stm} {q.tbl} {q.clauses} old(allocated(q)) ==> q.stm == old(q.stm) && q.tbl == old(q.tbl) && q.clauses == old(q.clauses)
 //@   atcall Exist assert[all-three-fixed@C03] cls.S != nil && cls.P != nil && cls.O != nil && t != nil && t.s == cls.S && t.p == cls.P && t.o == cls.O
 //@   atcall Objects assert[subject-and-predicate-fixed@C03] cls.S != nil && cls.P != nil && cls.O == nil && s == cls.S && p == cls.P
 //@   atcall PredicatesForSubjectAndObject assert[subject-and-object-fixed@C03] cls.S != nil && cls.P == nil && cls.O != nil && s == cls.S && o == cls.O
@@ -125,6 +132,17 @@ package planner
 //@   atcall TriplesForPredicate assert[predicate-fixed@C03] cls.S == nil && cls.P != nil && cls.O == nil && p == cls.P
 //@   atcall TriplesForObject assert[object-fixed@C03] cls.S == nil && cls.P == nil && cls.O != nil && o == cls.O
 //@   atcall Triples assert[nothing-fixed@C03] cls.S == nil && cls.P == nil && cls.O == nil
+//@   loop 0 invariant[tables-untouched] forall x *table.Table :: {x.Data} old(allocated(x)) ==> x.Data == old(x.Data)
+//@   loop 1 invariant[tables-untouched] forall x *table.Table :: {x.Data} old(allocated(x)) ==> x.Data == old(x.Data)
+//@   loop 2 invariant[tables-untouched] forall x *table.Table :: {x.Data} old(allocated(x)) ==> x.Data == old(x.Data)
+//@   loop 3 invariant[tables-untouched] forall x *table.Table :: {x.Data} old(allocated(x)) ==> x.Data == old(x.Data)
+//@   loop 4 invariant[tables-untouched] forall x *table.Table :: {x.Data} old(allocated(x)) ==> x.Data == old(x.Data)
+//@   loop 5 invariant[tables-untouched] forall x *table.Table :: {x.Data} old(allocated(x)) ==> x.Data == old(x.Data)
+//@   loop 6 invariant[tables-untouched] forall x *table.Table :: {x.Data} old(allocated(x)) ==> x.Data == old(x.Data)
+//@   loop 7 invariant[tables-untouched] forall x *table.Table :: {x.Data} old(allocated(x)) ==> x.Data == old(x.Data)
+//@   loop 8 invariant[tables-untouched] forall x *table.Table :: {x.Data} old(allocated(x)) ==> x.Data == old(x.Data)
+//@   loop 9 invariant[tables-untouched] forall x *table.Table :: {x.Data} old(allocated(x)) ==> x.Data == old(x.Data)
+//@   loop 10 invariant[tables-untouched] forall x *table.Table :: {x.Data} old(allocated(x)) ==> x.Data == old(x.Data)
 //@   loop 0 invariant tbl != nil && tbl.#lock_mu == 0 && 0 <= $i && $i <= len(gs) && $driverFailed == old($driverFailed)
 //@   loop 1 invariant tbl != nil && tbl.#lock_mu == 0 && 0 <= $i && $i <= len(gs) && $driverFailed == old($driverFailed)
 //@   loop 2 invariant deref(addr(os)) != nil && deref(addr(ts)) != nil && deref(addr(os)) != deref(addr(ts)) && deref(addr(os)).#closed == 1 && deref(addr(os)).#len == atentry(deref(addr(os)).#len) && 0 <= deref(addr(os)).#rcvd && deref(addr(ts)).#closed == 0 && deref(addr(ts)).#rcvd == 0 && tbl != nil && tbl.#lock_mu == 0 && $driverFailed == atentry($driverFailed) && (forall k int :: {deref(addr(os)).#out[k]} 0 <= k && k < deref(addr(os)).#len ==> wfObj(deref(addr(os)).#out[k])) && (forall k int :: {deref(addr(ts)).#out[k]} 0 <= k && k < deref(addr(ts)).#len ==> wfTriple(deref(addr(ts)).#out[k]))
@@ -141,13 +159,21 @@ package planner
 // is never lost - some row of the table extends it when the call succeeds.
 //@ func (p *queryPlan) addSpecifiedData
 //@   opt modifies-everything
-//@   opt obligations assert post:optional post:driver post:existing-rows post:plan invariant
+//@   opt obligations assert post:optional post:driver post:existing-rows post:plan post:rows-only post:optional-flag post:new-rows invariant
 //@   ensures[driver-error-surfaces@C20] $driverFailed && !old($driverFailed) ==> result != nil
 //@   ensures[existing-rows-untouched] forall m table.Row, k string :: {has(m, k)} {old(has(m, k))} old(allocated(m)) ==> has(m, k) == old(has(m, k)) && m[k] == old(m[k])
 //@   ensures[plan-untouched] p.stm == old(p.stm) && p.tbl == old(p.tbl) && p.clauses == old(p.clauses)
+//@   ensures[optional-flag-untouched] forall c *semantic.GraphClause :: {c.Optional} old(allocated(c)) ==> c.Optional == old(c.Optional)
+//@   ensures[rows-only-appended] len(p.tbl.Data) >= old(len(p.tbl.Data)) && (forall j int :: {p.tbl.Data[j]} 0 <= j && j < old(len(p.tbl.Data)) ==> p.tbl.Data[j] == old(p.tbl.Data[j]))
+//@   ensures[new-rows-allocated] forall j int :: {p.tbl.Data[j]} old(len(p.tbl.Data)) <= j && j < len(p.tbl.Data) ==> allocated(p.tbl.Data[j])
 //@   requires p != nil && p.stm != nil && p.tbl != nil && cls != nil && lo != nil
 //@   requires[row-has-bindings] r != nil && !has(r, "") && (exists k string :: {has(r, k)} has(r, k))
 //@   ensures[optional-keeps-row@C10] result == nil && cls.Optional ==> (exists j int :: {p.tbl.Data[j]} 0 <= j && j < len(p.tbl.Data) && extends(p.tbl.Data[j], r))
+//@   atcall simpleFetch assert[table-is-allocated] allocated(p.tbl)
+//@   loop 0 invariant[rows-only-appended] len(p.tbl.Data) >= old(len(p.tbl.Data)) && (forall j int :: {p.tbl.Data[j]} 0 <= j && j < old(len(p.tbl.Data)) ==> p.tbl.Data[j] == old(p.tbl.Data[j]))
+//@   loop 1 invariant[rows-only-appended] len(p.tbl.Data) >= old(len(p.tbl.Data)) && (forall j int :: {p.tbl.Data[j]} 0 <= j && j < old(len(p.tbl.Data)) ==> p.tbl.Data[j] == old(p.tbl.Data[j]))
+//@   loop 0 invariant[new-rows-allocated] forall j int :: {p.tbl.Data[j]} old(len(p.tbl.Data)) <= j && j < len(p.tbl.Data) ==> allocated(p.tbl.Data[j])
+//@   loop 1 invariant[new-rows-allocated] forall j int :: {p.tbl.Data[j]} old(len(p.tbl.Data)) <= j && j < len(p.tbl.Data) ==> allocated(p.tbl.Data[j])
 //@   loop 0 invariant[existing-rows] forall m table.Row, k string :: {has(m, k)} {old(has(m, k))} old(allocated(m)) ==> has(m, k) == old(has(m, k)) && m[k] == old(m[k])
 //@   loop 1 invariant[existing-rows] forall m table.Row, k string :: {has(m, k)} {old(has(m, k))} old(allocated(m)) ==> has(m, k) == old(has(m, k)) && m[k] == old(m[k])
 //@   loop 0 invariant[optional-null-row] nr != nil && fresh(nr) && nr != r && r != nil && !has(r, "") && (exists k string :: {has(r, k)} has(r, k))
@@ -474,11 +500,17 @@ package planner
 //@ func (p *queryPlan) specifyClauseWithTable
 //@   opt go-sequential
 //@   opt modifies-everything
-//@   opt obligations post:driver post:plan invariant pre
+//@   opt obligations post:driver post:plan post:optional invariant pre
 //@   requires p != nil && p.stm != nil && p.tbl != nil && p.tbl.#lock_mu == 0 && cls != nil && lo != nil
 //@   requires[rows-are-table-rows] forall j int :: {p.tbl.Data[j]} 0 <= j && j < len(p.tbl.Data) ==> p.tbl.Data[j] != nil && allocated(p.tbl.Data[j]) && !has(p.tbl.Data[j], "") && (exists k string :: {has(p.tbl.Data[j], k)} has(p.tbl.Data[j], k))
 //@   ensures[driver-error-surfaces@C20] $driverFailed && !old($driverFailed) ==> result != nil
 //@   ensures[plan-untouched] p.stm == old(p.stm) && p.tbl == old(p.tbl) && p.clauses == old(p.clauses)
+//@   ensures[optional-flag-untouched] forall c *semantic.GraphClause :: {c.Optional} old(allocated(c)) ==> c.Optional == old(c.Optional)
+//@   ensures[optional-keeps-rows@C10] cls.Optional && result == nil ==> leftRowsKept(p.tbl.Data, old(p.tbl.Data))
+//@   loop specifyClauseWithTable$1:0 invariant[optional-flag-untouched] forall c *semantic.GraphClause :: {c.Optional} old(allocated(c)) ==> c.Optional == old(c.Optional)
+//@   loop specifyClauseWithTable$1:0 invariant[table-rows-allocated] forall j int :: {p.tbl.Data[j]} 0 <= j && j < len(p.tbl.Data) ==> allocated(p.tbl.Data[j])
+//@   loop specifyClauseWithTable$1:0 invariant[rows-are-the-old-rows] deref(addr(rws)) == old(p.tbl.Data)
+//@   loop specifyClauseWithTable$1:0 invariant[extended-so-far@C10] 0 <= $i && $i <= len(deref(addr(rws))) && (cls.Optional && egerr(deref(addr(grp))) == nil ==> rowsKeptUpTo(p.tbl.Data, deref(addr(rws)), $i))
 //@   loop specifyClauseWithTable$1:0 invariant[plan-untouched] p.stm == old(p.stm) && p.tbl == old(p.tbl) && p.clauses == old(p.clauses)
 //@   loop specifyClauseWithTable$1:0 invariant[errors-recorded] deref(addr(grp)) != nil && ($driverFailed && !old($driverFailed) ==> egerr(deref(addr(grp))) != nil)
 //@   loop specifyClauseWithTable$1:0 invariant[plan] p.stm != nil && p.tbl != nil
